@@ -70,6 +70,9 @@ func (c *Ctx) evalCall(e *ast.CallExpr) Value {
 					if s.Obj().(*types.Func).FullName() == "(*encoding/gob.Decoder).Decode" && !c.spec {
 						return c.gobDecode(e, resultType(s.Obj().(*types.Func)))
 					}
+					if v, ok := c.atomicCall(s.Obj().(*types.Func), sel, e); ok {
+						return v
+					}
 					recv, _ := c.walkPath(base, s.Recv(), idx[:len(idx)-1])
 					if recv.Kind == KStruct && !c.spec && hasPtrRecv(s.Obj().(*types.Func)) {
 						// method with a pointer receiver called on an addressable by-value struct field
